@@ -357,4 +357,113 @@ theorem scan_number_frac (doC : Bool) (sg ip : Cps) (d : Nat) (ds stop : Cps) (h
   · rw [reNUMBER_eq]; exact hfirst
   · simp [identContinue]
 
+theorem signOpt_consumes : consumesIn [(43, 43), (45, 45)] signOpt = true := by decide
+
+/-- the fraction alternative of the number pattern does not match at digits that no `.` + digit follows -/
+theorem numA_tail_nil {cs : List (Nat × Nat)} (d : Nat) (ds stop : Cps) (hd : ∀ c ∈ d :: ds, isDigit c = true)
+    (hs : NumStop cs stop) :
+    (Re.seq (Re.star digitRe true) (Re.seq (Re.cls false [(46, 46)]) (Re.seq digitRe (Re.star digitRe true)))).ms
+      (d :: ds ++ stop) = [] := by
+  have hdot : clsFails false [(46, 46)] ((48, 57) :: cs) = true := by
+    have := hs.nodot
+    simp only [clsFails, Bool.false_eq_true, if_false, List.all_cons, Bool.and_eq_true] at this ⊢
+    exact ⟨by decide, this⟩
+  apply seq_ms_nil
+  intro l hl
+  rw [star_digit_ms (d :: ds) stop hd hs] at hl
+  have hle := mem_countdown hl
+  apply seq_cls_ms_nil_of_head
+  exact headIn_mono (num_heads (d :: ds) stop hd hs l hle) (fun c hc => clsFails_sound false _ _ c hdot hc)
+
+/-- **a signed integer**: optional sign and digits are matched exactly by the number pattern when neither a digit nor
+`.` follows -/
+theorem numRe_first_int (sg : Cps) (d : Nat) (ds stop : Cps) {cs : List (Nat × Nat)} (hsg : IsSign sg)
+    (hd : ∀ c ∈ d :: ds, isDigit c = true) (hs : NumStop cs stop) :
+    numRe.first (sg ++ (d :: ds ++ stop)) = some (sg.length + (d :: ds).length) := by
+  have hd0 : isDigit d = true := hd d (by simp)
+  have hdd : inR dotDigit d = true := by
+    simp only [isDigit, Bool.and_eq_true, decide_eq_true_eq] at hd0
+    simp [inR, dotDigit]; omega
+  obtain ⟨hl1, hsgc⟩ := isSign_len sg hsg
+  have hA : numA.ms (sg ++ (d :: ds ++ stop)) = [] := by
+    unfold numA
+    apply seq_ms_nil
+    intro l hl
+    have hall := consumesIn_sound _ signOpt signOpt_consumes _ l hl
+    have hle : l ≤ sg.length := by
+      by_cases h : l ≤ sg.length
+      · exact h
+      · exfalso
+        have hmem : d ∈ (sg ++ (d :: ds ++ stop)).take l := by
+          rw [List.take_append, List.take_of_length_le (by omega)]
+          obtain ⟨k, hk⟩ : ∃ k, l - sg.length = k + 1 := ⟨l - sg.length - 1, by omega⟩
+          rw [hk]; simp
+        have := hall d hmem
+        simp only [isDigit, Bool.and_eq_true, decide_eq_true_eq] at hd0
+        simp only [inR, List.any_cons, List.any_nil, Bool.or_false, Bool.or_eq_true, Bool.and_eq_true,
+          decide_eq_true_eq] at this
+        omega
+    rcases hsg with rfl | rfl | rfl
+    · have : l = 0 := by simpa using hle
+      subst this
+      exact numA_tail_nil d ds stop hd hs
+    · rcases l with _ | _ | l
+      · simp [Re.ms, Re.starMs, digitRe, Re.inCls]
+      · exact numA_tail_nil d ds stop hd hs
+      · simp at hle
+    · rcases l with _ | _ | l
+      · simp [Re.ms, Re.starMs, digitRe, Re.inCls]
+      · exact numA_tail_nil d ds stop hd hs
+      · simp at hle
+  have hB : numB.first (sg ++ (d :: ds ++ stop)) = some (sg.length + (d :: ds).length) := by
+    unfold numB
+    apply first_seq_some (signOpt_first sg _ hsg (headIn_cons hdd))
+    rw [drop_length_append]
+    show (Re.seq (Re.cls false [(48, 57)]) (Re.star digitRe true)).first (d :: (ds ++ stop)) = _
+    rw [first_seq_cls_cons, inCls_digit, hd0]
+    have := star_digit_first ds stop (fun c hc => hd c (List.mem_cons_of_mem _ hc)) (digit_ms_stop stop hs)
+    simp only [if_true, this, Option.map_some, List.length_cons]
+    congr 1; omega
+  show (Re.alt numA numB).first _ = _
+  rw [first_alt, first_none_of_ms_nil hA, hB]; rfl
+
+/-- **NUMBER class, signed integer**: optional sign and digits, followed by the end of the text or a space -/
+theorem scan_number_int (doC : Bool) (sg : Cps) (d : Nat) (ds stop : Cps) (hsg : IsSign sg)
+    (hd : ∀ c ∈ d :: ds, isDigit c = true) (hs : Sep stop) :
+    scan false doC (sg ++ (d :: ds ++ stop)) productions = .hit "NUMBER" (sg.length + (d :: ds).length) := by
+  have hdig : ∀ x, isDigit x = true → inR dotDigit x = true := by
+    intro x hx
+    simp only [isDigit, Bool.and_eq_true, decide_eq_true_eq] at hx
+    simp [inR, dotDigit]; omega
+  have hb : ∀ x ∈ d :: ds, inR dotDigit x = true := fun x hx => hdig x (hd x hx)
+  have hc0 : inR dotDigit d = true := hb d (by simp)
+  have hstop32 := sep_headIn32 hs
+  have hsplit : productions = productions.take 3 ++ (("IDENT", reIDENT) :: ("FUNCTION", reFUNCTION) ::
+      ("DIMENSION", reDIMENSION) :: ("PERCENTAGE", rePERCENTAGE) :: ("NUMBER", reNUMBER) :: productions.drop 8) := by
+    decide
+  obtain ⟨hl1, hsgc⟩ := isSign_len sg hsg
+  obtain ⟨h0, t0, hs0, hh0⟩ : ∃ h0 t0, sg ++ (d :: ds ++ stop) = h0 :: t0 ∧ inR numChars h0 = true := by
+    cases sg with
+    | nil => exact ⟨d, ds ++ stop, rfl, dotDigit_numChars d hc0⟩
+    | cons a r => exact ⟨a, r ++ (d :: ds ++ stop), rfl, hsgc a (by simp)⟩
+  have hfirst := numRe_first_int sg d ds stop hsg hd (sep_numStop hs)
+  have hI : reIDENT.ms (sg ++ (d :: ds ++ stop)) = [] := by
+    rw [reIDENT_eq]; exact dash_then_nil _ sg _ stop hsg d ds rfl hc0 (by decide) (by decide)
+  have hF : reFUNCTION.ms (sg ++ (d :: ds ++ stop)) = [] := by
+    rw [reFUNCTION_eq]; exact dash_then_nil _ sg _ stop hsg d ds rfl hc0 (by decide) (by decide)
+  have hD : reDIMENSION.ms (sg ++ (d :: ds ++ stop)) = [] := by
+    rw [reDIMENSION_eq]
+    exact numRe_then_nil2 reIDENT sg _ stop [(32, 32)] hsg hb hstop32 (by decide) (by decide) (by decide)
+  have hP : rePERCENTAGE.ms (sg ++ (d :: ds ++ stop)) = [] := by
+    rw [rePERCENTAGE_eq]
+    exact numRe_then_nil2 _ sg _ stop [(32, 32)] hsg hb hstop32 (by decide) (by decide) (by decide)
+  rw [hsplit]
+  rw [hs0] at hfirst hI hF hD hP ⊢
+  rw [scan_false_reject hh0 _ _ _ (by decide), scan_false_none (first_none_of_ms_nil hI),
+    scan_false_none (first_none_of_ms_nil hF), scan_false_none (first_none_of_ms_nil hD),
+    scan_false_none (first_none_of_ms_nil hP)]
+  apply scan_false_hit
+  · rw [reNUMBER_eq]; exact hfirst
+  · simp [identContinue]
+
 end CssVerif.Tok
